@@ -10,6 +10,7 @@ import (
 	"github.com/sarchlab/akita/v5/mem/idealmemcontroller"
 	"github.com/sarchlab/akita/v5/mem/rob"
 	"github.com/sarchlab/akita/v5/mem/simplebankedmemory"
+	"github.com/sarchlab/akita/v5/mem/vm"
 	"github.com/sarchlab/akita/v5/messaging"
 	"github.com/sarchlab/akita/v5/modeling"
 	"github.com/sarchlab/akita/v5/naming"
@@ -112,6 +113,12 @@ type AssemblySpec struct {
 	// LineExcl: requesters keep same-line read/write pairs from being in flight
 	// together and own whole lines instead of byte chunks (see DriverSpec).
 	LineExcl bool `json:"line_excl,omitempty"`
+	// PTLog2 > 0 adds a page table resource "PT" with that page size and a few
+	// pages (used by the checkpoint checks; no component consults it).
+	PTLog2  uint64 `json:"pt_log2,omitempty"`
+	PTPages int    `json:"pt_pages,omitempty"`
+	// StorageUnit > 0 sets the allocation unit of the backing storage.
+	StorageUnit uint64 `json:"storage_unit,omitempty"`
 }
 
 // Assembly is a built AssemblySpec.
@@ -134,6 +141,7 @@ type Assembly struct {
 	Conns         []*directconnection.Comp
 	AllPorts      []messaging.Port
 	Ctl           *Ctl
+	PT            vm.PageTable
 }
 
 func mkPort(reg modeling.Registrar, comp messaging.Component, name string, buf int, a *Assembly) messaging.Port {
@@ -196,7 +204,18 @@ func (s AssemblySpec) WTOverReordering() bool {
 func Build(reg modeling.Registrar, spec AssemblySpec) *Assembly {
 	a := &Assembly{Spec: spec, Reg: reg, CacheStorages: map[string]*mem.Storage{}}
 
-	a.Storage = mem.MakeStorageBuilder().WithCapacity(spec.Capacity).WithSimulation(reg).Build("Backing.Storage")
+	sb := mem.MakeStorageBuilder().WithCapacity(spec.Capacity).WithSimulation(reg)
+	if spec.StorageUnit > 0 {
+		sb = sb.WithUnitSize(spec.StorageUnit)
+	}
+	a.Storage = sb.Build("Backing.Storage")
+	if spec.PTLog2 > 0 {
+		a.PT = vm.MakePageTableBuilder().WithLog2PageSize(spec.PTLog2).WithSimulation(reg).Build("PT")
+		for i := 0; i < spec.PTPages; i++ {
+			a.PT.Insert(vm.Page{PID: vm.PID(1 + i%3), VAddr: uint64(i) << spec.PTLog2, PAddr: uint64(i+7) << spec.PTLog2,
+				PageSize: 1 << spec.PTLog2, Valid: true})
+		}
+	}
 
 	// Bottom memories.
 	var bottomTops []messaging.RemotePort
